@@ -23,8 +23,8 @@ fn gen_divisor(r: &mut Rng, m: usize, n: usize) -> AffFunc {
     }
     AffFunc::from_mats(a, b)
 }
-fn divisor_tree(r: &mut Rng, n: usize, m: usize, cfg: TreeCfg) -> AffTree<2> {
-    let mut t: AffTree<2> = gen_tree(r, n, m, cfg);
+fn divisor_tree<const K: usize>(r: &mut Rng, n: usize, m: usize, cfg: TreeCfg) -> AffTree<K> {
+    let mut t: AffTree<K> = gen_tree(r, n, m, cfg);
     let idxs: Vec<usize> = t.tree.terminal_indices().collect();
     for i in idxs {
         let f = gen_divisor(r, m, n);
@@ -48,9 +48,10 @@ fn chain_tree(r: &mut Rng, n: usize, m: usize, div: bool) -> AffTree<2> {
     AffTree::<2>::from_poly(poly, f, g.as_ref()).unwrap()
 }
 /// operand: random tree, or a from_poly chain; sometimes with cached feasibility states from an earlier elimination
-fn gen_operand(r: &mut Rng, n: usize, m: usize, cfg: TreeCfg, div: bool) -> AffTree<2> {
-    let mut t = match r.below(4) {
-        0 => chain_tree(r, n, m, div),
+fn gen_operand<const K: usize>(r: &mut Rng, n: usize, m: usize, cfg: TreeCfg, div: bool) -> AffTree<K> {
+    let mut t: AffTree<K> = match r.below(4) {
+        // from_poly builds binary trees (the cast is the identity for K = 2 and never taken otherwise)
+        0 if K == 2 => *(Box::new(chain_tree(r, n, m, div)) as Box<dyn std::any::Any>).downcast::<AffTree<K>>().unwrap(),
         _ => {
             if div {
                 divisor_tree(r, n, m, cfg)
@@ -64,13 +65,13 @@ fn gen_operand(r: &mut Rng, n: usize, m: usize, cfg: TreeCfg, div: bool) -> AffT
     }
     t
 }
-fn res(r: Result<AffTree<2>, String>) -> String {
+fn res<const K: usize>(r: Result<AffTree<K>, String>) -> String {
     match r {
         Ok(t) => sx_tree(&t),
         Err(_) => "panic".to_string(),
     }
 }
-fn binop(op: &str, a: &AffTree<2>, b: &AffTree<2>) -> Vec<String> {
+fn binop<const K: usize>(op: &str, a: &AffTree<K>, b: &AffTree<K>) -> Vec<String> {
     let v1 = catch(AssertUnwindSafe(|| match op {
         "add" => a + b,
         "sub" => a - b,
@@ -97,7 +98,7 @@ fn binop(op: &str, a: &AffTree<2>, b: &AffTree<2>) -> Vec<String> {
     }));
     vec![res(v1), res(v2), res(v3), res(v4)]
 }
-fn tf(op: &str, t: &AffTree<2>, f: &AffFunc) -> Vec<String> {
+fn tf<const K: usize>(op: &str, t: &AffTree<K>, f: &AffFunc) -> Vec<String> {
     let v1 = catch(AssertUnwindSafe(|| match op {
         "add" => t.clone() + f.clone(),
         "sub" => t.clone() - f.clone(),
@@ -112,7 +113,7 @@ fn tf(op: &str, t: &AffTree<2>, f: &AffFunc) -> Vec<String> {
     }));
     vec![res(v1), res(v2)]
 }
-fn ft(op: &str, f: &AffFunc, t: &AffTree<2>) -> Vec<String> {
+fn ft<const K: usize>(op: &str, f: &AffFunc, t: &AffTree<K>) -> Vec<String> {
     let v1 = catch(AssertUnwindSafe(|| match op {
         "add" => f.clone() + t.clone(),
         "sub" => f.clone() - t.clone(),
@@ -148,7 +149,7 @@ fn pre(line: &str) {
     println!("PRE {}", line);
     std::io::stdout().flush().unwrap();
 }
-fn one_case(r: &mut Rng, id: usize, out: &mut String) {
+fn one_case<const K: usize>(r: &mut Rng, id: usize, out: &mut String) {
     let n = 1 + r.below(3);
     let m = 1 + r.below(2);
     let cfg = TreeCfg {
@@ -162,10 +163,10 @@ fn one_case(r: &mut Rng, id: usize, out: &mut String) {
     let ops = ["add", "sub", "mul", "div"];
     let op = ops[r.below(4)];
     let kind = r.below(10);
-    let a: AffTree<2> = gen_operand(r, n, m, cfg, false);
+    let a: AffTree<K> = gen_operand(r, n, m, cfg, false);
     if kind < 6 {
         let bm = if r.chance(1, 15) { m + 1 } else { m };
-        let b: AffTree<2> = gen_operand(r, n, bm, cfg_b, op == "div");
+        let b: AffTree<K> = gen_operand(r, n, bm, cfg_b, op == "div");
         pre(&format!("(case {} tt {} {} {} (variants panic) (pts ))", id, op, sx_tree(&a), sx_tree(&b)));
         let vs = binop(op, &a, &b);
         // evaluate() of the first variant on sampled points
@@ -207,7 +208,12 @@ fn main() {
         let id: usize = args.rest[i + 2].parse().unwrap();
         let mut cr = Rng(state);
         let mut out = String::new();
-        one_case(&mut cr, id, &mut out);
+        // every fifth case is on trees with branching factor 4 (two-row predicates)
+        if id % 5 == 4 {
+            one_case::<4>(&mut cr, id, &mut out);
+        } else {
+            one_case::<2>(&mut cr, id, &mut out);
+        }
         print!("{}", out);
         return;
     }
